@@ -28,7 +28,14 @@ def main():
             return mod.replay(body)
         return 0
     ctx = Ctx(a.prop, a.tier, seed)
-    return mod.run(ctx)
+    try:
+        return mod.run(ctx)
+    except Exception:          # an exception escaping the implementation or the harness: never a silent pass
+        import traceback
+        tb = traceback.format_exc()
+        sys.stderr.write(tb)
+        ctx.brk('exception', 'the check aborted with an exception (raised by the implementation under test or by the harness)', tb[-3000:])
+        return ctx.finish(level='proof', checker_cmd='(aborted)')
 
 
 if __name__ == '__main__':
